@@ -479,9 +479,13 @@ def _process_comment(line, lineno, col):
 
 def parse_src(src: str, python_version: tuple[int, int]):
   """Parses a string of source code into an ast."""
-  return _SourceTree(
-      ast.parse(src, feature_version=python_version[1]), _process_comments(src)
-  )  # pylint: disable=unexpected-keyword-arg
+  try:
+    tree = ast.parse(src, feature_version=python_version[1])  # pylint: disable=unexpected-keyword-arg
+  except ValueError as e:
+    # ast.parse raises ValueError rather than SyntaxError for some malformed
+    # sources; report it like any other source that does not compile.
+    raise SyntaxError(str(e)) from e
+  return _SourceTree(tree, _process_comments(src))
 
 
 def visit_src_tree(src_tree):
